@@ -777,8 +777,8 @@ def run(res, tier, seed, proofs_ok):
          metas, lambda m: (f'{m[0]} -> {m[1]}', {'input': {'material': m[0]}}))
 
     # ---- 3. decks: control stream, fault injection, sweep -----------------
-    n_valid = 60 if quick else 600
-    per_class = 12 if quick else 120
+    n_valid = 60 if quick else 1500
+    per_class = 12 if quick else 300
     decks = []      # (deck, fault class or None, where)
     for _ in range(n_valid):
         decks.append((G.gen_valid_deck(rng), None, ''))
